@@ -28,10 +28,10 @@ CLAIMED = {
         'integral of eps^T F eps >= 0, plate / w-only / cylindrical / conical, full width and sub-interval; abd_weight_psd links the hypothesis to C01). '
         'The translator IR is interpreted on random panels against Panel.calc_k0(finalize=False) of the '
         'running binaries (V), and an independent energy-Hessian oracle (operator tables x exact Bardell integrals) is '
-        'compared with calc_k0 incl. pre-load, symmetry, PSD and sub-interval additivity (implementation arm).',
+        'compared with calc_k0 incl. pre-load, symmetry, PSD and sub-interval additivity (implementation arm). PANEL GLUE: Panel._rebuild / get_size / calc_k0 / calc_kG0 / calc_kM / calc_kA / calc_cA / calc_kT have a hand model (Model/PanelGlue.lean: which kernel is called with which arguments in which order, None vs 0.0, defaults, 20 error kinds, the combination sum / finalize / skew) tied to the running _panel.py by a recorded-kernel-call correspondence through the C02 driver (names, every argument as exact rational, r / alpharad the panel carries at the call, exception class, post-state, returned matrix), with theorems calc_k0_dispatch (strip kernel iff BOTH y1 and y2 are given - also y1 = 0.0; initial-stress kernel iff a pre-load component is a non-zero number, same domain, argument order), glue_placement, calc_kA / calc_cA_dispatch and calc_k0_eq_energy_hessian_plus_prestress_plate/_cpanel (kernel hypotheses discharged by the regenerated-kernel theorems).',
    note='Trusted: Lean kernel, Mathlib, translator (validated by V each run), operator tables, abstract J tied to C tables '
         'by C10 (the PSD theorems take the integrals as exact real integrals of products of continuous basis functions), Cython build not verified '
-        '(V vs in-tree .so), the + fkG0(N_cte) dispatch / laminate option glue of Panel.calc_k0 checked by the oracle only, rounding not modelled.',
+        '(V vs in-tree .so), the hand model of the Python glue is tied on explored states only (line coverage of the modelled functions gated), rounding not modelled.',
    technique='Lean 4 proof over model regenerated from source (translator) + translation validation + energy oracle', ref='4/C02'),
  'C03': dict(
    text='Regenerated Lean models of fkG0/fkG0y1y2 (4 models) and of the state-based fkG_num (flat, cylindrical); 39 theorems: each entry is the Hessian of the pre-stress work '
